@@ -106,10 +106,17 @@ def axis_aligned():
     return _AX
 
 
+LAYOUT_F = False      # set per case by the harness: one case in four hands over column-major (Fortran-ordered) 2-D arrays
+
+
 def ro(a):
     """read-only float copy: handing the library a non-writeable array turns any in-place modification of a caller's
-    argument into an immediate exception (a finding), instead of a silent corruption that only a later call would see"""
+    argument into an immediate exception (a finding), instead of a silent corruption that only a later call would see.
+    In the cases for which the harness sets LAYOUT_F, 2-D arrays are column-major (as a transposed view or a matrix that
+    came out of a Fortran-ordered computation is): same values, same shape, other memory order"""
     a = np.array(a, float)
+    if LAYOUT_F and a.ndim == 2 and a.shape[0] > 1 and a.shape[1] > 1:
+        a = np.asfortranarray(a)
     a.setflags(write=False)
     return a
 
